@@ -64,10 +64,24 @@ pub struct EncOpts {
 	/// with `tiles_as_view`: a few `map` rows whose image is missing (the view is a LEFT JOIN, the row shows up
 	/// with tile_data NULL). They lie inside the bounds of the real tiles and denote no tile.
 	pub dangling_rows: bool,
+	/// order in which `tiles` declares its columns (the specification fixes their names, not their order):
+	/// 0 zoom_level, tile_column, tile_row, tile_data; 1 tile_data first; 2 tile_column, tile_row, zoom_level,
+	/// tile_data; 3 tile_row, zoom_level, tile_data, tile_column
+	pub column_order: u8,
 }
 impl EncOpts {
 	pub fn random(rng: &mut Rng) -> EncOpts {
-		EncOpts { extra_metadata: rng.chance(0.5), with_bounds: rng.chance(0.5), shuffle: rng.chance(0.5), with_index: rng.chance(0.7), tiles_as_view: rng.chance(0.35), dangling_rows: rng.chance(0.4) }
+		EncOpts { extra_metadata: rng.chance(0.5), with_bounds: rng.chance(0.5), shuffle: rng.chance(0.5), with_index: rng.chance(0.7), tiles_as_view: rng.chance(0.35), dangling_rows: rng.chance(0.4), column_order: if rng.chance(0.6) { 0 } else { 1 + rng.below(3) as u8 } }
+	}
+}
+
+fn ordered<'a>(o: &EncOpts, cols: [&'a str; 4]) -> Vec<&'a str> {
+	// cols = [zoom_level, tile_column, tile_row, tile_data]
+	match o.column_order {
+		1 => vec![cols[3], cols[0], cols[1], cols[2]],
+		2 => vec![cols[1], cols[2], cols[0], cols[3]],
+		3 => vec![cols[2], cols[0], cols[3], cols[1]],
+		_ => cols.to_vec(),
 	}
 }
 
@@ -81,16 +95,16 @@ pub fn encode(ts: &TileSet, path: &Path, o: &EncOpts, rng: &mut Rng) -> Result<(
 			 CREATE TABLE images (tile_data BLOB, tile_id TEXT);
 			 CREATE UNIQUE INDEX map_index ON map (zoom_level, tile_column, tile_row);
 			 CREATE UNIQUE INDEX images_id ON images (tile_id);
-			 CREATE VIEW tiles AS SELECT map.zoom_level AS zoom_level, map.tile_column AS tile_column, map.tile_row AS tile_row, images.tile_data AS tile_data FROM map JOIN images ON images.tile_id = map.tile_id;",
+			 CREATE UNIQUE INDEX images_id2 ON images (tile_id, tile_data);",
 		)
-		.and_then(|_| if o.dangling_rows { conn.execute_batch("DROP VIEW tiles; CREATE VIEW tiles AS SELECT map.zoom_level AS zoom_level, map.tile_column AS tile_column, map.tile_row AS tile_row, images.tile_data AS tile_data FROM map LEFT JOIN images ON images.tile_id = map.tile_id;") } else { Ok(()) })
+		.and_then(|_| {
+			let cols = ordered(o, ["map.zoom_level AS zoom_level", "map.tile_column AS tile_column", "map.tile_row AS tile_row", "images.tile_data AS tile_data"]).join(", ");
+			conn.execute_batch(&format!("CREATE VIEW tiles AS SELECT {cols} FROM map {} JOIN images ON images.tile_id = map.tile_id;", if o.dangling_rows { "LEFT" } else { "" }))
+		})
 		.map_err(|e| e.to_string())?;
 	} else {
-		conn.execute_batch(
-			"CREATE TABLE metadata (name TEXT, value TEXT);
-			 CREATE TABLE tiles (zoom_level INTEGER, tile_column INTEGER, tile_row INTEGER, tile_data BLOB);",
-		)
-		.map_err(|e| e.to_string())?;
+		let cols = ordered(o, ["zoom_level INTEGER", "tile_column INTEGER", "tile_row INTEGER", "tile_data BLOB"]).join(", ");
+		conn.execute_batch(&format!("CREATE TABLE metadata (name TEXT, value TEXT); CREATE TABLE tiles ({cols});")).map_err(|e| e.to_string())?;
 	}
 	if o.with_index && !o.tiles_as_view {
 		conn.execute_batch("CREATE UNIQUE INDEX tile_index ON tiles (zoom_level, tile_column, tile_row);").map_err(|e| e.to_string())?;
@@ -123,7 +137,7 @@ pub fn encode(ts: &TileSet, path: &Path, o: &EncOpts, rng: &mut Rng) -> Result<(
 			tx.execute("INSERT OR IGNORE INTO images VALUES (?1, ?2)", params![v, id]).map_err(|e| e.to_string())?;
 			tx.execute("INSERT INTO map VALUES (?1, ?2, ?3, ?4)", params![k.0 as i64, k.1 as i64, row, id]).map_err(|e| e.to_string())?;
 		} else {
-			tx.execute("INSERT INTO tiles VALUES (?1, ?2, ?3, ?4)", params![k.0 as i64, k.1 as i64, row, v]).map_err(|e| e.to_string())?;
+			tx.execute("INSERT INTO tiles (zoom_level, tile_column, tile_row, tile_data) VALUES (?1, ?2, ?3, ?4)", params![k.0 as i64, k.1 as i64, row, v]).map_err(|e| e.to_string())?;
 		}
 	}
 	if o.tiles_as_view && o.dangling_rows {
